@@ -1419,3 +1419,10 @@ VARIANTS += [
     V('C15-M32', 'M', ('C15', 'C12', 'C14', 'C04'), RX, 'RemoteException.__init__', r"traceback\.format_exception\(type\(exc\), exc, tb\)", r"traceback.format_exception(type(exc), exc, tb, limit=100)", ('C15-3', 'C12-9', 'C14-8'), count=1, note='seeded C15-f5m1 shape'),
     V('C18-M32', 'M', ('C18',), SO, 'SocketServer._handle_connection', r"reqs = asyncio\.Queue\(self\._backlog\)", "reqs = self._reqs", ('C18-14',), note='seeded C18-f5m1 shape'),
 ]
+
+VARIANTS += [
+    V('C17-M31', 'M', ('C17',), QM, 'ResponsiveQueue._get_put', r"time_available = time_total - \(perf_counter\(\) - t0\)", "time_available -= perf_counter() - t0", ('C17-3',), note='seeded C17-f5m2 shape'),
+    V('C17-E31', 'E', ALL, QM, 'ResponsiveQueue._get_put', r"(\n(\s+))time_available = time_total - \(perf_counter\(\) - t0\)", r"\1now = perf_counter()\1time_available -= now - t0\1t0 = now", note='running decrement with the start reset in every pass'),
+    V('C17-M32', 'M', ('C17',), QM, 'IterableQueue.put_end', r"z = self\._spare_lids\.get\(timeout=1\.0\)", "z = self._spare_lids.get()", ('C17-8',), note='seeded C17-f5m1 shape: unbounded wait for the next round'),
+    V('C17-M33', 'M', ('C17',), QM, 'IterableQueue.put_end', r"(\n\s+)if self\._to_stop is not None and self\._to_stop\.is_set\(\):\n\s+raise StopRequested", r"\1pass", ('C17-8',), note='retry without looking at the stop event'),
+]
